@@ -56,6 +56,9 @@ structure BobOut (S : Type) where
   store : S
   /-- number of store calls made -/
   calls : Nat
+  /-- `self.namespace` when `run` returns: what `state.namespace()` tells `handle_connection`, which
+  puts it into the error it reports when closing the streams fails -/
+  nsAtExit : Option Bytes := none
 
 /-- `BobState::run` (with the F7 repair: the progress stays in place during a store call) -/
 def bobLoop {S : Type} (actor : Actor S) (accept : Bytes → Accept) :
@@ -64,30 +67,31 @@ def bobLoop {S : Type} (actor : Actor S) (accept : Bytes → Accept) :
   | [], .eof, ns, progress, s, written, calls =>
     -- the stream closed: fine if a namespace was negotiated
     match ns with
-    | some n => { result := .ok n, written, progress, store := s, calls }
-    | none => { result := .failed, written, progress, store := s, calls }
-  | [], .truncated, _, progress, s, written, calls =>
-    { result := .failed, written, progress, store := s, calls }
-  | .garbage :: _, _, _, progress, s, written, calls =>
-    { result := .failed, written, progress, store := s, calls }
+    | some n => { result := .ok n, written, progress, store := s, calls, nsAtExit := ns }
+    | none => { result := .failed, written, progress, store := s, calls, nsAtExit := ns }
+  | [], .truncated, ns, progress, s, written, calls =>
+    { result := .failed, written, progress, store := s, calls, nsAtExit := ns }
+  | .garbage :: _, _, ns, progress, s, written, calls =>
+    { result := .failed, written, progress, store := s, calls, nsAtExit := ns }
   | .frame f :: rest, e, ns, progress, s, written, calls =>
-    let fail : BobOut S := { result := .failed, written, progress, store := s, calls }
+    let fail : BobOut S := { result := .failed, written, progress, store := s, calls, nsAtExit := ns }
     -- the two arms that reach the store
     let process := fun (n : Bytes) (m : Message) (nsAfter : Option Bytes) =>
       match progress with
       | none => fail   -- unreachable: `progress` is never taken
       | some p =>
         match actor.call s n m p with
-        | none => { result := .failed, written, progress, store := s, calls := calls + 1 }
+        -- (in the init arm the document is recorded before the failed call is looked at)
+        | none => { result := .failed, written, progress, store := s, calls := calls + 1, nsAtExit := nsAfter }
         | some (s', reply, p') =>
           match reply with
           | some r => bobLoop actor accept rest e nsAfter (some p') s' (written ++ [.sync r]) (calls + 1)
-          | none => { result := .ok n, written, progress := some p', store := s', calls := calls + 1 }
+          | none => { result := .ok n, written, progress := some p', store := s', calls := calls + 1, nsAtExit := nsAfter }
     match f, ns with
     | .init n m, none =>
       match accept n with
       | .reject reason =>
-        { result := .aborted n reason, written := written ++ [.abort reason], progress, store := s, calls }
+        { result := .aborted n reason, written := written ++ [.abort reason], progress, store := s, calls, nsAtExit := ns }
       | .allow => process n m (some n)
     | .sync m, some n => process n m (some n)
     | .init _ _, some _ => fail
@@ -97,6 +101,23 @@ def bobLoop {S : Type} (actor : Actor S) (accept : Bytes → Accept) :
 def bobRun {S : Type} (actor : Actor S) (accept : Bytes → Accept) (items : List Item) (e : StreamEnd) (s : S) :
     BobOut S :=
   bobLoop actor accept items e none (some {}) s [] 0
+
+/-- what `net::handle_connection` reports to the live actor: the session's result, unless closing the
+streams fails (the peer went away), in which case a close error that names the document
+`state.namespace()` knows of -/
+inductive Accepted where
+  | finished (ns : Bytes)
+  | abort (ns : Bytes) (reason : Nat)
+  /-- `AcceptError::Sync` / `AcceptError::Close` with the document they name, if any -/
+  | error (ns : Option Bytes)
+deriving Repr, DecidableEq
+
+def handleConnection {S : Type} (out : BobOut S) (closeFails : Bool) : Accepted :=
+  if closeFails then .error out.nsAtExit
+  else match out.result with
+    | .ok n => .finished n
+    | .aborted n r => .abort n r
+    | .failed => .error out.nsAtExit
 
 inductive AliceResult where
   | ok (o : Outcome)
